@@ -38,6 +38,14 @@ pub fn alphabet(n: usize, l: usize, slot: usize) -> Vec<TCall> {
     for k in 0..=(3 * cap + 2) {
         v.push(TCall::Pixels { n: n as u8, words: (0..k * n).map(|i| byte_of(slot, i) as u16).collect() });
     }
+    // pixel sources that are not fused: end in the middle of a batch / at a batch boundary
+    for k in [0usize, 1, cap.saturating_sub(1), cap, cap + 1, 2 * cap, 2 * cap + 1] {
+        v.push(TCall::PixelsUnfused {
+            n: n as u8,
+            words: (0..k * n).map(|i| byte_of(slot, i) as u16).collect(),
+            after: (0..2 * n).map(|i| 0xD0 + i as u16).collect(),
+        });
+    }
     for pix in 0..2usize {
         let pixel: Vec<u16> = (0..n).map(|i| byte_of(slot, 50 + pix * 5 + i * (1 - pix)) as u16).collect();
         for count in 0..=(3 * cap + 2) as u32 {
@@ -83,6 +91,7 @@ pub fn run_history(n: usize, l: usize, hist: &[TCall]) -> HistObs {
         let name = match c {
             TCall::Cmd { .. } => "send_command",
             TCall::Pixels { .. } => "send_pixels",
+            TCall::PixelsUnfused { .. } => "send_pixels(unfused source)",
             TCall::Repeat { count, .. } => {
                 if *count == 0 {
                     "send_repeated_pixel(count=0)"
@@ -126,6 +135,41 @@ pub fn run_history(n: usize, l: usize, hist: &[TCall]) -> HistObs {
         }
     }
     obs
+}
+
+/// complete run of a repeat whose byte total does not fit 32 bits (counting mode: nothing is stored)
+pub fn extreme_count(n: usize, count: u32, pat: [u8; 3], l: usize) -> (Option<(String, String)>, u64, u64) {
+    let mut t = TRig::spi(l, 0xEE);
+    let pre = TCall::Cmd { op: 0x2C, args: vec![] };
+    let _ = t.call(&pre);
+    let want = count as u64 * n as u64;
+    {
+        let mut b = t.bd.borrow_mut();
+        b.count_only = true;
+        b.spi_bytes = 0;
+        b.spi_txns = 0;
+        b.spi_expect = Some((n, pat));
+        b.budget = 2 * (want / ((l / n) * n) as u64 + 1) + 8;
+    }
+    let c = TCall::Repeat { pixel: pat[..n].iter().map(|x| *x as u16).collect(), count };
+    let out = t.call(&c);
+    let b = t.bd.borrow();
+    let mk = |k: &str, m: String| Some((format!("send_repeated_pixel(count*N>=2^32)/{k}"), format!("N={n}, count={count}, pixel {:02x?}, buffer {l}: {m}", &pat[..n])));
+    let f = match out {
+        Outcome::Ok => {
+            if b.spi_bytes != want {
+                mk("byte-count", format!("{} bytes written, {want} expected", b.spi_bytes))
+            } else if let Some(off) = b.spi_mismatch {
+                mk("bytes", format!("byte at offset {off} is not the pixel pattern"))
+            } else {
+                None
+            }
+        }
+        Outcome::Panic(m) => mk("panic", m),
+        Outcome::NonTermination(m) => mk("non-termination", m),
+        Outcome::Err(e) => mk("spurious-error", format!("{e:?}")),
+    };
+    (f, b.spi_bytes, b.spi_txns)
 }
 
 fn run(ctx: &Ctx) -> Part {
@@ -224,13 +268,52 @@ fn run(ctx: &Ctx) -> Part {
             acc
         })
         .reduce(Acc::new, Acc::merge);
-    let bounds = json!({"pixel_widths": [2, 3], "buffer_lengths": jobs.iter().map(|j| j.1).collect::<Vec<_>>(), "depth": "2 (3 for short buffers)", "poison": "0xEE"});
+    // extreme repeat counts: byte totals beyond 2^32, complete runs in counting mode
+    let mut acc = acc;
+    let extremes: Vec<(usize, u32, [u8; 3], usize)> = vec![
+        (2, 0x8000_0000, [0, 0, 0], 4096),
+        (2, 0x8000_0001, [0xFF, 0xFF, 0], 4095),
+        (3, 1_431_655_766, [0x3C, 0x3C, 0x3C], 4096),
+        (2, 0x8000_0000, [0x12, 0x34, 0], 64),
+    ];
+    let ex = extremes
+        .par_iter()
+        .fold(Acc::new, |mut acc, &(n, count, pat, l)| {
+            acc.evaluations += 1;
+            acc.nontrivial += 1;
+            let (f, bytes, txns) = extreme_count(n, count, pat, l);
+            acc.count("extreme_count_bytes", bytes);
+            acc.count("extreme_count_transactions", txns);
+            if let Some((sig, msg)) = f {
+                acc.violation(Violation { prop: ctx.prop.clone(), sig, msg, case: json!({"kind": "c06x", "variant": ctx.variant, "n": n, "count": count, "pixel": pat, "len": l}) });
+            }
+            acc
+        })
+        .reduce(Acc::new, Acc::merge);
+    acc = acc.merge(ex);
+    let bounds = json!({"pixel_widths": [2, 3], "buffer_lengths": jobs.iter().map(|j| j.1).collect::<Vec<_>>(), "depth": "2 (3 for short buffers)", "poison": "0xEE",
+        "extreme_counts": "send_repeated_pixel with count*N >= 2^32 bytes, run to completion in counting mode (byte total and periodic content checked)"});
     let mut part = Part::new(ctx, acc, bounds, true, t0.elapsed().as_secs_f64());
     part.require("fill_stream_fill_triples", 100);
     part
 }
 
 pub fn replay(case: &serde_json::Value) -> i32 {
+    if case["kind"] == "c06x" {
+        let pat: Vec<u8> = serde_json::from_value(case["pixel"].clone()).unwrap();
+        let (f, bytes, txns) = extreme_count(case["n"].as_u64().unwrap() as usize, case["count"].as_u64().unwrap() as u32, [pat[0], pat[1], pat[2]], case["len"].as_u64().unwrap() as usize);
+        println!("{bytes} bytes in {txns} transactions");
+        return match f {
+            Some((s, m)) => {
+                println!("REPLAY: {s} -- {m}");
+                1
+            }
+            None => {
+                println!("REPLAY: passes");
+                0
+            }
+        };
+    }
     let n = case["n"].as_u64().unwrap() as usize;
     let l = case["len"].as_u64().unwrap() as usize;
     let hist: Vec<TCall> = serde_json::from_value(case["history"].clone()).unwrap();
